@@ -77,8 +77,16 @@ def make_data(case):
                 il = layout[n]
                 sig = 0.05 * (1 + p % 3)
                 smp = yv[p] + sig * (case['corr'] * common[n] + nprng.normal(size=len(il)))
-                b = pe.Obs([smp], [n], idl=[il])
+                # 'zfac': every point on ensembles of its own ...
+                b = pe.Obs([smp], [('P%d%s' % (p, n)) if case.get('zfac') else n], idl=[il])
                 o = b if o is None else pe.merge_obs([o, b])
+            if case.get('zfac'):
+                # ... times one common factor of central value exactly 1: the name lists of the points differ pairwise
+                # but overlap, the points are correlated through the factor
+                if 'Z' not in common:
+                    zs_ = nprng.normal(size=30)
+                    common['Z'] = pe.Obs([1.0 + 0.03 * (zs_ - np.mean(zs_))], ['Zq|r1'])
+                o = o * common['Z']
             yo.append(o)
         xs[key], ys[key] = x, yo
     return xs, ys, fb, truth
@@ -428,6 +436,8 @@ def gen_case(ctx):
         case['user_chol'] = 'listed_order' if (combined and rng.random() < 0.5) else 'ok'
     case['via_corr'] = (not combined) and b == 'poly' and rng.random() < 0.4
     case['via_fitlin'] = (not combined) and b == 'poly' and npar == 2
+    if case['correlated'] and not combined and not case['via_corr'] and rng.random() < 0.6:
+        case['zfac'] = True      # (a Corr holds observables of one ensemble layout only: not together with via_corr)
     case['exp_chisq'] = rng.random() < 0.3
     if case['via_corr']:
         case['ens'] = case['ens'][:1]       # a correlator needs all timeslices on the same chains
